@@ -66,30 +66,44 @@ theorem Chain.mono {L : Str} {st st' : List RedirCell} {ts : List Token} {c : Na
   | eof _ h1 ih => exact .eof ih h1
   | gath _ h1 h2 ih => exact .gath ih h1 (h2.mono hs)
 
-/-- the chain fact about log and state, the line being `L0`.  When the cursor is beyond the end
-    of the line (the non-strict skip over a missing here-document), nothing is said. -/
+/-- the cursor `c` of the chain is the cursor `i` of the tape, or both are beyond the end of the
+    line (the non-strict skip over a missing here-document) -/
+def CurRel (L0 : Str) (k c i : Nat) : Prop := (k = 0 ∧ c = i) ∨ (L0.length < c ∧ L0.length < i)
+
+/-- the chain fact about log and state, the line being `L0`: the log is a chain `pre`, followed --
+    only when the cursor is beyond the end of the line -- by end-of-input tokens (in a dead state
+    `token()` delivers nothing else) -/
 def ChainC (L0 : Str) (ts : List Token) (l : Local) (e : Env) : Prop :=
   (tapeOf l e).line = L0 ∧
-  ((tapeOf l e).idx ≤ L0.length → Chain L0 l.store ts (tapeOf l e).idx) ∧
+  (∃ pre k c, ts = pre ++ List.replicate k eofTok ∧ Chain L0 l.store pre c ∧
+    CurRel L0 k c (tapeOf l e).idx) ∧
   ((∃ t ∈ ts, t.pos = none) → L0.length ≤ (tapeOf l e).idx)
 
+theorem chainC_live {L0 : Str} {ts : List Token} {l : Local} {e : Env} (h : ChainC L0 ts l e)
+    (hi : (tapeOf l e).idx ≤ L0.length) : Chain L0 l.store ts (tapeOf l e).idx := by
+  obtain ⟨_, ⟨pre, k, c, h1, h2, h3⟩, _⟩ := h
+  rcases h3 with ⟨rfl, rfl⟩ | ⟨_, h3⟩
+  · simpa [h1] using h2
+  · omega
+
 theorem covOK_chain (L0 : Str) : CovOK (ChainC L0) := by
-  refine ⟨?_, ?_, ?_⟩
+  refine ⟨?_, ?_, ?_, ?_⟩
   · intro ts t L i0 len f l0 l e0 e hc h1 h2 hg hs
-    obtain ⟨c1, c2, c3⟩ := hc
+    have c1 := hc.1
+    have c3 := hc.2.2
     have hL : L = L0 := by rw [← h1]; exact c1
     subst hL
     obtain ⟨g1, _, _, hcase⟩ := hg
     have hmono : ∀ p, InBody l0.store p → InBody l.store p := fun p h => inBody_storeStep h hs
-    refine ⟨g1, fun hidx => ?_, ?_⟩
+    have hi0 : i0 ≤ L.length := by
+      rcases hcase with ⟨_, hsk, _⟩ | ⟨a, _, _, hsk, _⟩ <;> exact hsk.le_len
+    have hch := (chainC_live hc (by rw [h2]; exact hi0)).mono hmono
+    rw [h2] at hch
+    refine ⟨g1, ⟨ts ++ [t], 0, (tapeOf l e).idx, by simp, ?_, Or.inl ⟨rfl, rfl⟩⟩, ?_⟩
     · rcases hcase with ⟨rfl, hsk, hi⟩ | ⟨a, hpos, hak, hsk, hty⟩
-      · have hch := (c2 (by rw [h2]; exact hsk.le_len)).mono hmono
-        rw [h2] at hch
-        rw [hi]
+      · rw [hi]
         exact .eof hch hsk
-      · have hch := (c2 (by rw [h2]; exact hsk.le_len)).mono hmono
-        rw [h2] at hch
-        rcases hty with ⟨hnl, hLa, hreg⟩ | ⟨hnn, hle⟩
+      · rcases hty with ⟨hnl, hLa, hreg⟩ | ⟨hnn, hle⟩
         · exact .nl hch hsk hpos hak hnl hLa hreg
         · exact .tok hch hsk hpos hak hle hnn
     · rintro ⟨t', ht', hpos'⟩
@@ -103,29 +117,77 @@ theorem covOK_chain (L0 : Str) : CovOK (ChainC L0) := by
         · simp only [List.mem_singleton] at ht'
           subst ht'
           rw [hpos] at hpos'; cases hpos'
-  · intro ts L c len f l0 l e0 e hc h1 h2 hg hs
-    obtain ⟨c1, c2, c3⟩ := hc
+  · intro ts L c len f l0 l e0 e hc h1 h2 hcL hg hs
+    have c1 := hc.1
+    have c3 := hc.2.2
     have hL : L = L0 := by rw [← h1]; exact c1
     subst hL
     obtain ⟨g1, _, _, g4, g5⟩ := hg
     have hmono : ∀ p, InBody l0.store p → InBody l.store p := fun p h => inBody_storeStep h hs
-    refine ⟨g1, fun hidx => ?_, fun hx => ?_⟩
-    · have hch := (c2 (by rw [h2]; omega)).mono hmono
-      rw [h2] at hch
-      exact .gath hch g4 g5
-    · have := c3 hx
-      rw [h2] at *
-      omega
-  · intro ts ts' l0 l e0 e hc h1 h2 h3 h4
-    obtain ⟨c1, c2, c3⟩ := hc
-    refine ⟨by rw [h1]; exact c1, fun hidx => ?_, fun hx => ?_⟩
-    · rcases h2 with ⟨h2, rfl⟩ | ⟨_, h2⟩
-      · rw [h2] at hidx ⊢
-        exact (c2 hidx).mono h3
-      · rw [c1] at h2; omega
-    · rcases h2 with ⟨h2, rfl⟩ | ⟨_, h2⟩
+    have hch := (chainC_live hc (by rw [h2]; exact hcL)).mono hmono
+    rw [h2] at hch
+    refine ⟨g1, ⟨ts, 0, (tapeOf l e).idx, by simp, .gath hch g4 g5, Or.inl ⟨rfl, rfl⟩⟩, fun hx => ?_⟩
+    have := c3 hx
+    rw [h2] at *
+    omega
+  · intro ts l0 l e0 e hc h1 h2 h3
+    obtain ⟨c1, ⟨pre, k, c, d1, d2, d3⟩, c3⟩ := hc
+    refine ⟨by rw [h1]; exact c1, ⟨pre, k, c, d1, d2.mono h3, ?_⟩, fun hx => ?_⟩
+    · rcases h2 with h2 | ⟨h2a, h2b⟩
+      · rw [h2]; exact d3
+      · rw [c1] at h2a h2b
+        rcases d3 with ⟨_, rfl⟩ | ⟨d3, _⟩
+        · exact Or.inr ⟨h2a, h2b⟩
+        · exact Or.inr ⟨d3, h2b⟩
+    · rcases h2 with h2 | ⟨_, h2⟩
       · rw [h2]; exact c3 hx
       · rw [c1] at h2; exact Nat.le_of_lt h2
+  · intro ts l0 l e0 e hc h1 h2 h3
+    obtain ⟨c1, ⟨pre, k, c, d1, d2, d3⟩, c3⟩ := hc
+    obtain ⟨h2a, h2b⟩ := h2
+    rw [c1] at h2a h2b
+    refine ⟨by rw [h1]; exact c1, ⟨pre, k + 1, c, ?_, d2.mono h3, ?_⟩, fun _ => Nat.le_of_lt h2b⟩
+    · rw [d1, List.replicate_succ', List.append_assoc]
+    · rcases d3 with ⟨_, rfl⟩ | ⟨d3, _⟩
+      · exact Or.inr ⟨h2a, h2b⟩
+      · exact Or.inr ⟨d3, h2b⟩
+
+/-- the consumed tokens (none is the end-of-input token) and the look-ahead, or the consumed
+    tokens alone, are the chain -/
+theorem chainC_split {L0 : Str} {ts la : List Token} {l : Local} {e : Env}
+    (h : ChainC L0 (ts ++ la) l e) (hno : ∀ t ∈ ts, t.ttype ≠ some .EOF) (hla : la.length ≤ 1) :
+    ∃ la' c, (la' = la ∨ la' = []) ∧ Chain L0 l.store (ts ++ la') c ∧
+      (c = (tapeOf l e).idx ∨ (L0.length < c ∧ L0.length < (tapeOf l e).idx)) := by
+  obtain ⟨_, ⟨pre, k, c, h1, h2, h3⟩, _⟩ := h
+  have hcur : c = (tapeOf l e).idx ∨ (L0.length < c ∧ L0.length < (tapeOf l e).idx) := by
+    rcases h3 with ⟨_, h⟩ | h
+    · exact Or.inl h
+    · exact Or.inr h
+  cases k with
+  | zero =>
+    refine ⟨la, c, Or.inl rfl, ?_, hcur⟩
+    rw [h1]; simpa using h2
+  | succ k =>
+    rw [List.replicate_succ', ← List.append_assoc] at h1
+    cases la with
+    | nil =>
+      exfalso
+      simp only [List.append_nil] at h1
+      exact hno eofTok (by rw [h1]; simp) rfl
+    | cons x xs =>
+      have hxs : xs = [] := by
+        cases xs with
+        | nil => rfl
+        | cons _ _ => simp at hla
+      subst hxs
+      obtain ⟨h4, _⟩ := List.append_inj' h1 rfl
+      cases k with
+      | zero =>
+        refine ⟨[], c, Or.inr rfl, ?_, hcur⟩
+        rw [List.append_nil, h4]; simpa using h2
+      | succ k =>
+        exfalso
+        exact hno eofTok (by rw [h4]; simp [List.replicate_succ]) rfl
 
 /-- **the logged ghost invariant with the chain, the line pinned** -/
 def TLogCh (L0 : Str) : List Token → Nat → Nat → Local → Env → Prop := TLogX (ChainC L0)
@@ -137,9 +199,10 @@ theorem tokLogCh_init (s : Str) (l : Local) (e : Env) (hi : InitState s l e) :
     TLogCh (Tape.ofInput s).line [] s.length 0 l e := by
   refine ⟨tokLog.init s l e hi, fun _ => ?_⟩
   have ht := initState_tape hi
-  refine ⟨by rw [ht], fun _ => ?_, ?_⟩
-  · rw [ht, ofInput_idx]; exact .nil
-  · rintro ⟨t, ht', _⟩; cases ht'
+  have hc : CurRel (Tape.ofInput s).line 0 0 (tapeOf l e).idx :=
+    Or.inl ⟨rfl, by rw [ht, ofInput_idx]⟩
+  refine ⟨by rw [ht], ⟨[], 0, 0, rfl, .nil, hc⟩, ?_⟩
+  rintro ⟨t, ht', _⟩; cases ht'
 
 end Bashlex.C05.TGT
 
@@ -167,8 +230,8 @@ theorem npSpans_Ch (L0 : Str) (tr : List Token) (d : Nat) :
     obtain ⟨r, l'⟩ := v
     rintro ⟨⟨h1, h2⟩, h3⟩ ⟨f1, f2⟩
     refine ⟨⟨⟨⟨⟨h1, hdel⟩, fun hlen => ?_⟩, hsorted⟩, h2⟩, h3⟩
-    exact (covOK_chain L0).same (hcov hlen) (by rw [f1]) (Or.inl ⟨by rw [f1], rfl⟩)
-      (fun p h => by rw [f2]; exact h) (fun t ht => ht)
+    exact (covOK_chain L0).same (hcov hlen) (by rw [f1]) (Or.inl (by rw [f1]))
+      (fun p h => by rw [f2]; exact h)
 
 end
 
@@ -196,7 +259,8 @@ theorem C05_parts_chain (s : Str) (o : Opts) (parts : List Node)
 def ChainOK (s0 : Str) (n : Node) : Prop :=
   ∃ (ts la : List Token) (B : Nat) (st : List RedirCell),
     la.length ≤ 1 ∧ NoEOF ts ∧ TokSorted ts ∧ FCovers s0.length ts (Spec.leaves n) ∧
-    (B ≤ (Tape.ofInput s0).line.length → Chain (Tape.ofInput s0).line st (ts ++ la) B) ∧
+    (∃ la' c, (la' = la ∨ la' = []) ∧ Chain (Tape.ofInput s0).line st (ts ++ la') c ∧
+      (c = B ∨ ((Tape.ofInput s0).line.length < c ∧ (Tape.ofInput s0).line.length < B))) ∧
     ((∃ t ∈ la, t.pos = none) → (Tape.ofInput s0).line.length ≤ B)
 
 theorem runOK_chain {s0 : Str} {n : Node} (hlen : s0.length + 1 < 1073741824)
@@ -207,8 +271,9 @@ theorem runOK_chain {s0 : Str} {n : Node} (hlen : s0.length + 1 < 1073741824)
     rw [List.filter_append, filter_noEOF hno] at this
     exact this.append.1
   obtain ⟨_, hcov⟩ := htl
-  obtain ⟨hline, hch, heof⟩ := hcov hlen
-  refine ⟨ts, la, (tapeOf l e).idx, l.store, hla, hno, hs, hcv, hch, ?_⟩
+  have hcc := hcov hlen
+  have heof := hcc.2.2
+  refine ⟨ts, la, (tapeOf l e).idx, l.store, hla, hno, hs, hcv, chainC_split hcc hno hla, ?_⟩
   rintro ⟨t, ht, hp⟩
   exact heof ⟨t, List.mem_append_right _ ht, hp⟩
 
